@@ -244,6 +244,10 @@ func (p *Program) verifyFunc(key string, safetyOnly bool) *FuncResult {
 		renv.lookup = func(name string) (Val, bool) {
 			return fr.lookupNameAt(name, rst, rblock)
 		}
+		renv.knownName = func(name string) bool {
+			_, ok := fr.names[name]
+			return ok
+		}
 		for _, prm := range fn.Params {
 			renv.vars[prm.Name()] = fr.vals[prm]
 		}
